@@ -278,7 +278,7 @@ func GenInput(t *rapid.T, p *Profile) *Input {
 		n := rapid.IntRange(1, 3).Draw(t, "nclock")
 		for i := 0; i < n; i++ {
 			in.Faults = append(in.Faults, Fault{Kind: "clock", Step: rapid.IntRange(1, 150).Draw(t, "clockStep"),
-				Arg: rapid.SampledFrom([]int64{1, 999, 1000, 1000000, 86400000000, 31536000000000}).Draw(t, "clockJump")})
+				Arg: rapid.SampledFrom([]int64{1, 999, 1000, 1000000, 61000000, 3600000000}).Draw(t, "clockJump")})
 		}
 	}
 	sortFaults(in.Faults)
